@@ -147,10 +147,12 @@ def cases(tier, seed):
         for b in gen_scope.seqs(size, 2, gen_scope.C04_ATOMS, None, {}):
             yield {"kind": "stmts_goto", "files": [("stmts.pn", gen_prog.to_source(gen_scope.program_with_main(gen_scope.renumber_bumps(b))))]}
     # 11. dependency graphs of constants and structures in random declaration order, half of them with a cycle of length 1-5
-    for i in range(400 if quick else 20000):
+    for i in range(2000 if quick else 40000):
         g_rng = common.rng_for(seed, PROP, "depgraph", i)
         src = c11.graph_source(g_rng, i)[0]
         yield {"kind": "depgraph", "files": [("graph.pn", src)]}
+    for n, kind, order, src in c11.pure_cycle_sources((1, 2, 3, 4, 5) if quick else (1, 2, 3, 4, 5, 6)):
+        yield {"kind": "depcycle", "files": [("cycle.pn", src)]}
     # 9. AddressSanitizer build of the worker (Rust side of the first-generation compiler) on a sample
     if not quick:
         for p, t in corpus:
